@@ -3,6 +3,9 @@ From Sky Require Import Base.Uint Model.Base58.
 From Coq Require Import Lia ZifyBool.
 Open Scope Z_scope.
 
+Lemma div_eucl_eq a b : Z.div_eucl a b = (a / b, a mod b).
+Proof. unfold Z.div, Z.modulo. destruct (Z.div_eucl a b). reflexivity. Qed.
+
 (* ================= positional numerals in one base ================= *)
 Section OneBase.
   Variable b : Z.
@@ -29,7 +32,7 @@ Section OneBase.
     induction fuel as [|f IH]; intros v Hv.
     - cbn in Hv. cbn [digits_rev le_val]. lia.
     - cbn [digits_rev]. destruct (v <=? 0) eqn:E; [cbn [le_val]; lia|].
-      cbn [le_val]. rewrite IH.
+      rewrite div_eucl_eq. cbn [le_val]. rewrite IH.
       + pose proof (Z.div_mod v b ltac:(lia)). lia.
       + rewrite Nat2Z.inj_succ, Z.pow_succ_r in Hv by lia.
         split; [apply Z.div_pos; lia|].
@@ -85,7 +88,7 @@ Section OneBase.
     canon_le (digits_rev b fuel v).
   Proof.
     induction fuel as [|f IH]; intros v Hv; [constructor|].
-    cbn [digits_rev]. destruct (v <=? 0) eqn:E; [constructor|].
+    cbn [digits_rev]. destruct (v <=? 0) eqn:E; [constructor|]. rewrite div_eucl_eq.
     assert (Hq : 0 <= v / b < 2 ^ Z.of_nat f).
     { rewrite Nat2Z.inj_succ, Z.pow_succ_r in Hv by lia.
       split; [apply Z.div_pos; lia|]. apply Z.div_lt_upper_bound; [lia|]. nia. }
@@ -106,7 +109,7 @@ Section OneBase.
       inversion Hc as [|d0 r0 Hd Hr Hlast]; subst d0 r0. unfold digit in Hd.
       destruct fuel as [|f]; [cbn [List.length] in Hf; lia|].
       cbn [digits_rev]. replace (le_val (d :: r) <=? 0) with false by lia.
-      cbn [le_val].
+      rewrite div_eucl_eq. cbn [le_val].
       assert (Hmod : (d + b * le_val r) mod b = d).
       { rewrite Z.mul_comm, Z.mod_add by lia. apply Z.mod_small. lia. }
       assert (Hdiv : (d + b * le_val r) / b = le_val r).
@@ -127,11 +130,13 @@ Section OneBase.
   Proof.
     induction l as [|x r IH]; cbn [app].
     - split.
-      + intros H. inversion H as [|d0 r0 Hd Hr Hlast]; subst. repeat split; auto.
-      + intros (_ & Hd & Hnz). constructor; [exact Hd|constructor|auto].
+      + intros H. inversion H as [|d0 r0 Hd Hr Hlast]; subst.
+        split; [constructor|]. split; [exact Hd|]. apply Hlast. reflexivity.
+      + intros (_ & Hd & Hnz). constructor; [exact Hd|constructor|intros _; exact Hnz].
     - split.
       + intros H. inversion H as [|d0 r0 Hd Hr Hlast]; subst.
-        apply IH in Hr. destruct Hr as (Hf & Hdd & Hnz). repeat split; auto.
+        apply IH in Hr. destruct Hr as (Hf & Hdd & Hnz).
+        split; [constructor; assumption|]. split; assumption.
       + intros (Hf & Hd & Hnz). inversion Hf as [|x0 r0 Hx Hr']; subst.
         constructor; [exact Hx| apply IH; auto |].
         intros Hnil. destruct r; discriminate.
@@ -141,14 +146,20 @@ Section OneBase.
   Definition nz_head (ds : list Z) : Prop :=
     match ds with [] => True | d :: _ => d <> 0 end.
 
+  Lemma Forall_rev_iff' {A} (P : A -> Prop) l : Forall P (rev l) <-> Forall P l.
+  Proof.
+    split; intros H; [rewrite <- (rev_involutive l)|]; apply Forall_rev; exact H.
+  Qed.
+
   Lemma canon_le_rev ds : canon_le (rev ds) <-> Forall digit ds /\ nz_head ds.
   Proof.
     destruct ds as [|d r].
     - cbn. split; [intros _; split; [constructor|exact I] | intros _; constructor].
-    - cbn [rev nz_head]. rewrite canon_le_snoc. rewrite Forall_rev_iff.
+    - cbn [rev nz_head]. rewrite canon_le_snoc. rewrite Forall_rev_iff'.
       split.
       + intros (Hf & Hd & Hnz). split; [constructor; assumption|exact Hnz].
-      + intros (Hf & Hnz). inversion Hf; subst. repeat split; assumption.
+      + intros (Hf & Hnz). inversion Hf as [|x0 r0 Hx Hr']; subst.
+        split; [exact Hr'|]. split; [exact Hx|exact Hnz].
   Qed.
 
   Lemma digits_canon v : 0 <= v -> Forall digit (digits b v) /\ nz_head (digits b v).
@@ -314,13 +325,12 @@ Proof. reflexivity. Qed.
 Theorem dec_enc bs : Forall is_byte bs -> bs <> [] -> b58dec (b58enc bs) = Ok bs.
 Proof.
   intros Hb Hne. unfold b58enc, b58dec.
-  pose proof (recode_digits 256 58 ltac:(lia) bs Hb) as Hd.
+  pose proof (recode_digits 256 58 ltac:(lia) ltac:(lia) bs Hb) as Hd.
   pose proof (recode_inv 256 58 ltac:(lia) ltac:(lia) bs Hb) as Hinv.
-  destruct (recode 256 58 bs) as [|d ds] eqn:E.
-  - exfalso. cbn in Hinv. congruence.
-  - rewrite <- E in *. rewrite E at 1. cbn [map].
-    rewrite <- (map_cons char_of_digit d ds), <- E.
-    rewrite digits_of_text_map by exact Hd. now rewrite Hinv.
+  set (ds := recode 256 58 bs) in *.
+  assert (Hds : ds <> []) by (intros E; rewrite E in Hinv; cbn in Hinv; congruence).
+  rewrite digits_of_text_map by exact Hd.
+  destruct ds as [|d ds']; [congruence|]. cbn [map]. now rewrite Hinv.
 Qed.
 
 Theorem enc_dec s bs : b58dec s = Ok bs -> b58enc bs = s.
@@ -338,7 +348,7 @@ Proof.
   destruct (digits_of_text (c :: r)) as [ds|] eqn:E; [|discriminate].
   intros H. injection H as <-.
   apply digits_of_text_some in E. destruct E as [Hf _].
-  apply (recode_digits 58 256 ltac:(lia) ds Hf).
+  apply (recode_digits 58 256 ltac:(lia) ltac:(lia) ds Hf).
 Qed.
 
 Theorem dec_fails_iff s :
@@ -381,8 +391,8 @@ Proof.
   rewrite <- (recode_inv 256 58 ltac:(lia) ltac:(lia) a Ha).
   rewrite <- (recode_inv 256 58 ltac:(lia) ltac:(lia) b Hb).
   f_equal.
-  pose proof (recode_digits 256 58 ltac:(lia) a Ha) as Da.
-  pose proof (recode_digits 256 58 ltac:(lia) b Hb) as Db.
+  pose proof (recode_digits 256 58 ltac:(lia) ltac:(lia) a Ha) as Da.
+  pose proof (recode_digits 256 58 ltac:(lia) ltac:(lia) b Hb) as Db.
   apply (f_equal digits_of_text) in H.
   rewrite !digits_of_text_map in H by assumption. congruence.
 Qed.
@@ -396,6 +406,14 @@ Proof.
   - injection H as -> ->. rewrite Z.eqb_refl. cbn. apply IH. reflexivity.
 Qed.
 
+Lemma In_firstn' {A} (x : A) n l : In x (firstn n l) -> In x l.
+Proof. intros H. rewrite <- (firstn_skipn n l). apply in_or_app. now left. Qed.
+
+Lemma skipn_app_exact {A} (k r : list A) n : List.length k = n -> skipn n (k ++ r) = r.
+Proof. intros <-. rewrite skipn_app, Nat.sub_diag, skipn_all. reflexivity. Qed.
+Lemma firstn_app_exact {A} (k r : list A) n : List.length k = n -> firstn n (k ++ r) = k.
+Proof. intros <-. rewrite firstn_app, Nat.sub_diag, firstn_all. cbn [firstn]. apply app_nil_r. Qed.
+
 Section AddrProofs.
   Variable sha : list Z -> list Z.
   Hypothesis sha_len : forall m, (4 <= List.length (sha m))%nat.
@@ -408,22 +426,22 @@ Section AddrProofs.
   Proof.
     unfold addr_checksum. apply Forall_forall. intros x Hx.
     pose proof (sha_bytes (a_key a ++ [a_version a])) as H. rewrite Forall_forall in H.
-    apply H. eapply In_firstn_in. Unshelve. 3: exact 4%nat. exact Hx.
+    apply H. apply (In_firstn' x 4). exact Hx.
   Qed.
 
   Lemma from_bytes_addr_bytes a : wf_address a -> a_version a = 0 ->
     addr_from_bytes sha (addr_bytes sha a) = Ok a.
   Proof.
-    intros (Hlen & Hkb & Hvb) Hv. destruct a as [v key]. cbn [a_version a_key] in *. subst v.
-    unfold addr_from_bytes, addr_bytes. cbn [a_version a_key].
-    rewrite !app_length, checksum_length, Hlen. cbn [List.length Nat.add Nat.eqb negb].
-    rewrite skipn_app, Hlen, Nat.sub_diag. rewrite skipn_all2 by lia. cbn [skipn app].
-    rewrite firstn_app, Hlen, Nat.sub_diag. cbn [firstn]. rewrite app_nil_r.
-    rewrite <- Hlen, firstn_all.
-    replace (eqb_list Z.eqb (addr_checksum sha {| a_version := 0; a_key := key |})
-               (addr_checksum sha {| a_version := 0; a_key := key |})) with true
+    intros (Hlen & Hkb & Hvb) Hv.
+    assert (Hl : List.length (addr_bytes sha a) = 25%nat).
+    { unfold addr_bytes. rewrite !app_length, checksum_length, Hlen. reflexivity. }
+    unfold addr_from_bytes. rewrite Hl. cbn [Nat.eqb negb].
+    unfold addr_bytes.
+    rewrite (skipn_app_exact _ _ _ Hlen), (firstn_app_exact _ _ _ Hlen). cbn [app].
+    replace {| a_version := a_version a; a_key := a_key a |} with a by (destruct a; reflexivity).
+    replace (eqb_list Z.eqb (addr_checksum sha a) (addr_checksum sha a)) with true
       by (symmetry; apply eqb_list_Z_eq; reflexivity).
-    reflexivity.
+    rewrite Hv. reflexivity.
   Qed.
 
   Lemma from_bytes_ok b a : addr_from_bytes sha b = Ok a ->
@@ -434,7 +452,9 @@ Section AddrProofs.
     destruct (skipn 20 b) as [|v chk] eqn:Es; [discriminate|].
     destruct (eqb_list Z.eqb chk _) eqn:Ec; cbn [negb]; [|discriminate].
     destruct (v =? 0) eqn:Ev; cbn [negb]; [|discriminate].
-    intros H. injection H as <-. cbn [a_version a_key].
+    intros H.
+    assert (Ha : a = {| a_version := v; a_key := firstn 20 b |}) by congruence.
+    clear H. subst a. cbn [a_version a_key].
     apply eqb_list_Z_eq in Ec. split; [|split; [lia|]].
     - unfold addr_bytes. cbn [a_version a_key]. rewrite <- Ec.
       change ([v] ++ chk) with (v :: chk). rewrite <- Es. symmetry. apply firstn_skipn.
@@ -456,7 +476,7 @@ Section AddrProofs.
     - intros (Hs & Hv & Hwf). subst s.
       assert (Hbytes : Forall is_byte (addr_bytes sha a)).
       { destruct Hwf as (_ & Hk & Hvb). unfold addr_bytes. apply Forall_app. split; [exact Hk|].
-        apply Forall_app. split; [repeat constructor; exact Hvb | apply checksum_bytes]. }
+        apply Forall_app. split; [constructor; [exact Hvb|constructor] | apply checksum_bytes]. }
       rewrite dec_enc; [apply from_bytes_addr_bytes; assumption | exact Hbytes |].
       unfold addr_bytes. destruct (a_key a); discriminate.
   Qed.
